@@ -2,50 +2,42 @@
 import re
 import z3
 from vlib.oblig import obligation, mval
-from vlib import loader, build as B
+from vlib import loader, build as B, actions as A
+from vlib.actions import unchanged, poll_result
 from vlib.seqworld import World, initial_world, SCALARS, CELLS
 from mirsym.engine import Obj, Ref, Inconclusive
+from mirsym import models as M
 
-LISTS = ('block_fees', 'cached_deposits', 'events', 'validator_updates')
+COMMON_ASSUME = ['state reads succeed (no storage I/O or decode errors); storage keys are injective; StoredValue (de)serialisation is the identity',
+                 'awaited sub-futures complete (Pending is never returned); tracing is disabled',
+                 'an asset is identified by its 256-bit IBC-prefixed id; to_ibc_prefixed / Into<Cow<IbcPrefixed>> are functions of the denom']
 
 
 def engine():
-    ex = loader.load(['astria-sequencer', 'astria-core', 'astria-core-address'], scalar_types=SCALARS, max_steps=2_000_000)
-    w = World(ex)
-    ex.hooks = w.hooks()
-    return ex, w
-
-
-def unchanged(w0, w1, except_=()):
-    cs = []
-    for k in w0:
-        if k in except_ or k.rstrip('?') in except_:
-            continue
-        if k in LISTS:
-            cs.append(z3.BoolVal(len(w0[k]) == len(w1[k])))
-        elif k == 'ibc_context':
-            continue
-        else:
-            cs.append(w0[k] == w1[k])
-    return z3.And(*cs)
-
-
-def poll_result(p):
-    """Poll<Result<..>> of a finished path -> 'Ok' | 'Err'"""
-    r = p.result
-    if not isinstance(r, Obj) or r.discr != 'Ready':
-        raise Inconclusive(f'future did not complete: {r!r}')
-    res = r.fields[('Ready', 0)]
-    return res.discr, res
+    return A.engine()
 
 
 def bal_key(a, s):
     return z3.Concat(a, s)
 
 
+def balance_writes(p):
+    return [e for e in p.log if e[0] == 'write' and e[1] == 'balance']
+
+
+def pair_claim(w0, p, frm, to, asset, amt):
+    """Ok-path conservation: exactly one debit of (frm, asset) and one credit of (to, asset) by amt, no wrap"""
+    b0 = w0['balance']; k1, k2 = bal_key(frm, asset), bal_key(to, asset)
+    mid = z3.Store(b0, k1, z3.Select(b0, k1) - amt)
+    post = z3.Store(mid, k2, z3.Select(mid, k2) + amt)
+    return z3.And(p.world['balance'] == post, z3.UGE(z3.Select(b0, k1), amt), z3.BVAddNoOverflow(z3.Select(mid, k2), amt, False)), mid
+
+
 @obligation('C01', 'C01-4a Transfer::execute moves exactly `amount` of one asset from signer to recipient')
 def c01_transfer(run):
     ex, W = engine()
+    for a_ in COMMON_ASSUME:
+        run.assume(a_)
     f = ex.find(r'checked_actions::transfer::<impl at [^>]*>::execute$')
     run.bound(state='arbitrary symbolic chain state (SMT arrays)', action='arbitrary Transfer (amount full u128, arbitrary addresses/assets, aliasing allowed)', unroll='loop-free')
     run.assume('state reads succeed (no storage I/O or decode errors); storage keys are injective; StoredValue (de)serialisation is the identity')
@@ -80,3 +72,175 @@ def c01_transfer(run):
     run.require_reached(*run.cur.reach)
     if not any(k.startswith('Ok =>') for k in run.cur.reach):
         raise Inconclusive('vacuity: no Ok path')
+
+
+def value_action(name, fields):
+    """fields(ex, W, p, me) -> (from, to, asset, amount)"""
+    def ob(run):
+        ex, W = engine()
+        for a_ in COMMON_ASSUME:
+            run.assume(a_)
+        run.bound(state='arbitrary symbolic chain state', action=f'arbitrary {name} (amount full u128; addresses/assets symbolic, aliasing allowed)', unroll='loop-free')
+        w0, res = A.run_action(run, ex, W, name)
+        n_ok = 0
+        for i, (p, kind, r, me) in enumerate(res):
+            if kind == 'panic':
+                run.prove(f'no panic [path {i}]', p.pc, z3.BoolVal(False), detail=p.info); continue
+            frm, to, asset, amt = fields(ex, W, p, me)
+            claim, mid = pair_claim(w0, p, frm, to, asset, amt)
+            run.sample({'action': name, 'path': i, 'result': kind, 'balance_writes': len(balance_writes(p))})
+            if kind == 'Ok':
+                n_ok += 1
+                run.prove(f'Ok => one debit and one credit of the same asset and amount, no wrap [path {i}]', p.pc, claim)
+            else:
+                run.prove(f'Err => never a credit without its debit [path {i}]', p.pc, z3.Or(p.world['balance'] == w0['balance'], p.world['balance'] == mid))
+        if not n_ok:
+            raise Inconclusive('vacuity: no Ok path')
+        run.require_reached(*run.cur.reach)
+    return ob
+
+
+def f_lock(ex, W, p, me):
+    act = B.fld(ex, p, me, 'action', 'BridgeLock')
+    return (W.addr(p, B.fld(ex, p, me, 'tx_signer', 'TransactionSignerAddressBytes')), W.addr(p, B.fld(ex, p, act, 'to', 'Address')),
+            W.asset(p, B.fld(ex, p, act, 'asset', 'Denom')), B.fld(ex, p, act, 'amount', 'u128'))
+
+
+def f_unlock(ex, W, p, me):
+    act = B.fld(ex, p, me, 'action', 'BridgeUnlock')
+    return (W.addr(p, B.fld(ex, p, act, 'bridge_address', 'Address')), W.addr(p, B.fld(ex, p, act, 'to', 'Address')),
+            W.asset(p, B.fld(ex, p, me, 'bridge_account_ibc_asset', 'IbcPrefixed')), B.fld(ex, p, act, 'amount', 'u128'))
+
+
+def f_btransfer(ex, W, p, me):
+    return f_unlock(ex, W, p, B.fld(ex, p, me, 'checked_bridge_unlock', 'CheckedBridgeUnlockImpl<false>'))
+
+
+obligation('C01', 'C01-4b BridgeLock::execute conserves value')(value_action('BridgeLock', f_lock))
+obligation('C01', 'C01-4c BridgeUnlock::execute conserves value')(value_action('BridgeUnlock', f_unlock))
+obligation('C01', 'C01-4d BridgeTransfer::execute conserves value')(value_action('BridgeTransfer', f_btransfer))
+
+
+@obligation('C01', 'C01-1 increase_balance / decrease_balance contracts')
+def c01_contracts(run):
+    ex, W = engine()
+    for a_ in COMMON_ASSUME:
+        run.assume(a_)
+    run.bound(state='arbitrary symbolic balance array', args='arbitrary address, asset, amount (full u128)', unroll='loop-free')
+    for which in ('increase_balance', 'decrease_balance'):
+        f = ex.find(rf'^accounts::state_ext::StateWriteExt::{which}$')
+        w0 = initial_world()
+        addr, asset, amt = z3.BitVec('addr', 160), z3.BitVec('asset', 256), z3.BitVec('amount', 128)
+        st = ex.start(f, [B.cell(Obj('S', kind='cell')), B.cell(addr), B.cell(asset), amt], world=dict(w0))
+        k = bal_key(addr, asset); b0 = w0['balance']
+        for i, p in enumerate(run.explore(ex, st, poll=True)):
+            if p.kind != 'return':
+                run.prove(f'{which} no panic [path {i}]', p.pc, z3.BoolVal(False), detail=p.info); continue
+            kind, r = poll_result(p)
+            run.sample({'fn': which, 'path': i, 'result': kind})
+            cur = z3.Select(b0, k)
+            if which == 'increase_balance':
+                fits = z3.BVAddNoOverflow(cur, amt, False); new = cur + amt
+            else:
+                fits = z3.UGE(cur, amt); new = cur - amt
+            if kind == 'Ok':
+                run.prove(f'{which} Ok => exact update of exactly that cell, no wrap [path {i}]', p.pc,
+                          z3.And(fits, p.world['balance'] == z3.Store(b0, k, new), unchanged(w0, p.world, except_=('balance',))))
+            else:
+                run.prove(f'{which} Err => would wrap, nothing written [path {i}]', p.pc, z3.And(z3.Not(fits), unchanged(w0, p.world)))
+    run.require_reached(*run.cur.reach)
+
+
+FEE_ACTIONS = ['Transfer', 'BridgeLock', 'BridgeUnlock', 'BridgeTransfer', 'BridgeSudoChange', 'InitBridgeAccount', 'Ics20Withdrawal', 'RollupDataSubmission',
+               'ValidatorUpdate', 'SudoAddressChange', 'IbcSudoChange', 'IbcRelayerChange', 'FeeAssetChange', 'FeeChange']
+ACTION_PATH = 'astria_core::protocol::transaction::v1::action::'
+
+
+def h_variable_component(ctx):
+    """actions whose variable component is computed from payload sizes: an arbitrary u128 (the size itself is outside the claim)"""
+    recv = ctx.ex.deref_val(ctx.st, ctx.args[0])
+    name = recv.ty.split('::')[-1] if isinstance(recv, Obj) else '?'
+    if name in ('BridgeLock', 'RollupDataSubmission', 'BridgeTransfer'):
+        v = z3.BitVec('variable_component', 128)
+        ctx.st.world['var_component'] = v
+        return [(None, v)]
+    return None
+
+
+def fee_engine():
+    ex, W = A.engine(extra_hooks=[(re.compile(r'as (fees::)?FeeHandler>::variable_component$'), h_variable_component)])
+    return ex, W
+
+
+def exact_fee(base, mult, var):
+    """base + mult*var over 257-bit integers"""
+    wide = z3.ZeroExt(128, var) * z3.ZeroExt(128, mult)          # 256-bit product, shared shape with the saturating_mul model
+    return z3.ZeroExt(1, wide) + z3.ZeroExt(129, base)
+
+
+def classify_fee(exact, result):
+    def c(model):
+        e = model.eval(exact, model_completion=True).as_long(); r = model.eval(result, model_completion=True).as_long()
+        return 'saturation-region' if e > (1 << 128) - 1 and r == (1 << 128) - 1 else None
+    return c
+
+
+@obligation('C01', 'C01-2 fee = base + multiplier * variable component, for every fee-paying action kind')
+def c01_fee(run):
+    ex, W = fee_engine()
+    for a_ in COMMON_ASSUME:
+        run.assume(a_)
+    run.assume('variable_component of BridgeLock/BridgeTransfer/RollupDataSubmission (payload sizes) is an arbitrary u128')
+    run.bound(state='arbitrary fee schedule (base, multiplier full u128) and allowed-asset set', actions=FEE_ACTIONS, unroll='loop-free')
+    f = ex.find(r'^fee$')
+    MAX = z3.BitVecVal((1 << 128) - 1, 257)
+    for name in FEE_ACTIONS:
+        w0 = initial_world()
+        act = Obj(ACTION_PATH + name)
+        st = ex.start(f, [B.cell(act), B.cell(Obj('S', kind='cell'))], world=dict(w0, generic_F=name))
+        paths = run.explore(ex, st, poll=True)
+        tag = z3.BitVecVal(W.fee_tags[name], 8) if name in W.fee_tags else None
+        for i, p in enumerate(paths):
+            if p.kind != 'return':
+                run.prove(f'{name}: no panic [path {i}]', p.pc, z3.BoolVal(False), detail=p.info); continue
+            kind, r = poll_result(p)
+            if tag is None:
+                tag = z3.BitVecVal(W.fee_tags[name], 8)
+            base, present, mult = z3.Select(w0['fees_base'], tag), z3.Select(w0['fees_base?'], tag), z3.Select(w0['fees_mult'], tag)
+            run.prove(f'{name}: computing a fee writes nothing [path {i}]', p.pc, unchanged(w0, p.world))
+            if kind == 'Err':
+                # Err only if the action is disabled (fees unset) or the fee asset is not allowed
+                me = ex.read(p, p.roots['args'][0].loc)
+                adt = ex.adts.lookup(me.ty)
+                allowed = z3.Select(w0['allowed_fee_asset'], W.asset(p, B.fld(ex, p, me, 'fee_asset', 'Denom'))) if adt and 'fee_asset' in adt.get('fields', []) else z3.BoolVal(True)
+                run.prove(f'{name}: Err only when fees are unset or the asset is not allowed [path {i}]', p.pc, z3.Or(z3.Not(present), z3.Not(allowed)))
+                continue
+            opt = r.fields[('Ok', 0)]
+            if opt.discr == 'None':
+                run.sample({'action': name, 'path': i, 'result': 'free (no fee asset)'}); run.reached(f'{name}: free'); continue
+            tup = opt.fields[('Some', 0)]
+            asset_ref, total = tup
+            var = p.world.get('var_component', z3.BitVecVal(0, 128))
+            exact = exact_fee(base, mult, var)
+            res257 = z3.ZeroExt(129, total)
+            me = ex.read(p, p.roots['args'][0].loc)
+            fa = B.fld(ex, p, me, 'fee_asset', 'Denom')
+            run.sample({'action': name, 'path': i, 'result': 'Some', 'total': str(z3.simplify(total))[:120]})
+            run.prove(f'{name}: charged asset is the action\'s fee asset and it is allowed [path {i}]', p.pc,
+                      z3.And(W.asset(p, asset_ref) == W.asset(p, fa), z3.Select(w0['allowed_fee_asset'], W.asset(p, fa)), present))
+            # (a) exact everywhere -> the saturation region is the recorded finding F7; (b) exact-or-saturated -> anything else is a new violation
+            symbolic_var = 'var_component' in p.world
+            if symbolic_var and run.tier == 'quick' and name != 'BridgeLock':
+                # `fee<F>` is one generic function: its arithmetic is decided on the BridgeLock instantiation in the quick tier, on all three in thorough
+                run.note(f'{name}: arithmetic of the shared generic fee<F> decided on the BridgeLock instantiation in the quick tier'); continue
+            # (a) exact everywhere -> the saturation region is the recorded finding F7; (b) exact-or-saturated -> anything else is a new violation
+            run.prove(f'{name}: fee == base + multiplier*variable (exact) [path {i}]', p.pc, res257 == exact, classify=classify_fee(exact, res257), replay=replay_fee(name, base, mult, var, total))
+            prod = z3.ZeroExt(128, var) * z3.ZeroExt(128, mult)
+            run.prove(f'{name}: fee == base + multiplier*variable, or saturated at u128::MAX when that overflows [path {i}]', p.pc,
+                      z3.Or(res257 == exact, z3.And(z3.UGT(exact, MAX), res257 == MAX)), replay=replay_fee(name, base, mult, var, total),
+                      abstraction=[(prod, z3.BitVec('wide_product', 256))] if symbolic_var else None)
+    run.require_reached(*run.cur.reach)
+
+
+def replay_fee(name, base_e, mult_e, var_e, total_e):
+    return None
